@@ -71,7 +71,7 @@ func (o Op) String() string {
 		return fmt.Sprintf("begin(ovf=%v,wal=%d,pct=%d)", o.Overflow, o.WALLimit, o.GrowPct)
 	case "alloc":
 		return fmt.Sprintf("alloc(%d)", o.N)
-	case "setfull", "read", "free", "flushpage", "setroot", "load":
+	case "setfull", "read", "free", "flushpage", "setroot", "load", "markdirty":
 		return fmt.Sprintf("%s(p%d,s%d)", o.Kind, o.P, o.Seed)
 	case "setpart":
 		return fmt.Sprintf("setpart(p%d,len=%d,s%d)", o.P, o.Len, o.Seed)
@@ -572,6 +572,32 @@ func (e *Engine) apply(op Op) Result {
 			return Result{Err: ErrKind(err)}
 		}
 		e.txW[id] = want
+		return Result{}
+
+	case "markdirty":
+		// MarkDirty on a page of the committed state that the transaction has not loaded: the page is written back as
+		// it is - its contents must not change (D35)
+		if !needTx() {
+			return Result{Skipped: true}
+		}
+		id, ok := e.pick(op.P)
+		if !ok || e.txFlushed[id] {
+			return Result{Skipped: true}
+		}
+		want, has := e.expect(id)
+		if !has {
+			return Result{Skipped: true}
+		}
+		p, err := e.page(id)
+		if err != nil {
+			e.fail("Page(%d) failed: %v", id, err)
+			return Result{Err: ErrKind(err)}
+		}
+		if err := p.MarkDirty(); err != nil {
+			e.fail("MarkDirty(%d) failed: %v", id, err)
+			return Result{Err: ErrKind(err)}
+		}
+		e.txW[id] = append([]byte(nil), want...)
 		return Result{}
 
 	case "load":
